@@ -499,6 +499,9 @@ func (w *World) handlerKind(h *ssa.Function, r *Roles) (string, string) {
 				if ok && isNilConst(bo.Y) && bo.X == ssa.Value(e0.Call) {
 					continue
 				}
+				if ok && isNilConst(bo.Y) && isErrorType(bo.X.Type()) && ((bo.Op == token.NEQ && !a.Pol) || (bo.Op == token.EQL && a.Pol)) {
+					continue // reached only when a helper in between reported no error (errors abort the evaluation)
+				}
 				if ex, isEx := a.V.(*ssa.Extract); isEx {
 					if _, isTA := ex.Tuple.(*ssa.TypeAssert); isTA {
 						continue // a type test of the intermediate result (failing branch is an error return)
@@ -653,7 +656,7 @@ func (w *World) noBypass(P string, f *Facts, r *Roles) {
 		sort.Strings(nts)
 		w.check(P, "R02.8", "handler "+h.Name()+" ("+strings.Join(nts, ",")+")", h.Pos(), bypass == "", "success return reachable without evaluating any child at "+orNone(bypass))
 	}
-	w.floor(P, "R02.8", 8)
+	w.floorSites(P, "R02.8", 8)
 }
 
 // instrAfter: b is executed after a (same block later, or in a block dominated by a's block).
@@ -995,6 +998,17 @@ func selectorLocal(fn *ssa.Function) (bool, string) {
 			if b, isB := x.Call.Value.(*ssa.Builtin); isB && b.Name() == "len" {
 				continue
 			}
+			if d := staticCallee(x); d != nil && inRepo(d) {
+				idx := -1
+				for i, a := range x.Call.Args {
+					if a == ssa.Value(fn.Params[0]) {
+						idx = i
+					}
+				}
+				if idx >= 0 && perNodeDriver(d, idx) {
+					continue // a loop driver: calls the step function it is given once per element, in order
+				}
+			}
 			ok, why = false, "the whole incoming node-set is passed to "+calleeName(x)+": the contribution of one context node may depend on the others"
 		case *ssa.DebugRef:
 		default:
@@ -1026,6 +1040,80 @@ func selectorLocal(fn *ssa.Function) (bool, string) {
 	return ok, why
 }
 
+// perNodeDriver: d only loops over its parameter idx in ascending order and hands each element to a function it
+// received as a parameter (never to anything else), without branches that depend on loop-carried state.
+func perNodeDriver(d *ssa.Function, idx int) bool {
+	if idx >= len(d.Params) || len(d.Blocks) == 0 {
+		return false
+	}
+	ns := ssa.Value(d.Params[idx])
+	fnParam := func(v ssa.Value) bool {
+		p, ok := v.(*ssa.Parameter)
+		if !ok {
+			return false
+		}
+		_, isSig := p.Type().Underlying().(*types.Signature)
+		return isSig
+	}
+	calls := 0
+	for _, rr := range referrers(ns) {
+		switch x := rr.(type) {
+		case *ssa.IndexAddr:
+			if !ascendingCounter(x.Index) {
+				return false
+			}
+			for _, r2 := range referrers(x) {
+				ld, ok := r2.(*ssa.UnOp)
+				if !ok {
+					return false
+				}
+				for _, r3 := range referrers(ld) {
+					switch y := r3.(type) {
+					case *ssa.Call:
+						if !fnParam(y.Call.Value) {
+							return false
+						}
+						calls++
+					case *ssa.DebugRef:
+					default:
+						return false
+					}
+				}
+			}
+		case *ssa.Call:
+			if b, isB := x.Call.Value.(*ssa.Builtin); !isB || b.Name() != "len" {
+				return false
+			}
+		case *ssa.DebugRef:
+		default:
+			return false
+		}
+	}
+	if calls == 0 {
+		return false
+	}
+	okState := true
+	loops := loopBlocks(d)
+	allInstrs(d, func(in ssa.Instruction) {
+		ifi, isIf := in.(*ssa.If)
+		if !isIf || !loops[ifi.Block()] {
+			return
+		}
+		backSlice(ifi.Cond, func(v ssa.Value) bool {
+			phi, isPhi := v.(*ssa.Phi)
+			if !isPhi || !loops[phi.Block()] {
+				return true
+			}
+			if ascendingCounter(phi) || isCounterPhi(phi) {
+				return false
+			}
+			okState = false
+			return false
+		})
+	})
+	return okState
+}
+
 // isCounterPhi: phi(-1|0, phi+1), the raw counter of a range loop.
 func isCounterPhi(phi *ssa.Phi) bool {
 	okInit, okStep := false, false
@@ -1043,4 +1131,9 @@ func isCounterPhi(phi *ssa.Phi) bool {
 		return false
 	}
 	return okInit && okStep
+}
+
+func isErrorType(t types.Type) bool {
+	n, ok := t.(*types.Named)
+	return ok && n.Obj().Pkg() == nil && n.Obj().Name() == "error"
 }
